@@ -30,6 +30,13 @@ def judge_ops(events, tag="judge", timeout=1800):
     """events: list of normalised records. Returns {id: {"violated": set, "explained": bool, "chained": bool}}."""
     if not events:
         return {}, None
+    try:
+        return _judge_ops(events, tag, timeout)
+    except T.MachineryError:
+        return _judge_ops(events, tag + "-retry", timeout)
+
+
+def _judge_ops(events, tag, timeout):
     os.makedirs(os.path.join(T.BUILD, "judge"), exist_ok=True)
     fd, path = tempfile.mkstemp(prefix=tag + "-", suffix=".ndjson", dir=os.path.join(T.BUILD, "judge"))
     with os.fdopen(fd, "w") as f:
@@ -59,6 +66,13 @@ _RE_JQ = re.compile(r'^<<"J", (\d+), "([^"]*)", \{([^}]*)\}>>')
 
 def run_judge(module, events, constants, tag, timeout=1800):
     """Generic judge: module reads IOEnv.TRACE_FILE and prints <<"J", l, id, {violated}>> per line."""
+    try:
+        return _run_judge(module, events, constants, tag, timeout)
+    except T.MachineryError:
+        return _run_judge(module, events, constants, tag + "-retry", timeout)
+
+
+def _run_judge(module, events, constants, tag, timeout):
     os.makedirs(os.path.join(T.BUILD, "judge"), exist_ok=True)
     fd, path = tempfile.mkstemp(prefix=tag + "-", suffix=".ndjson", dir=os.path.join(T.BUILD, "judge"))
     with os.fdopen(fd, "w") as f:
